@@ -36,8 +36,16 @@ var elems = []elemT{
 	{Key: "buch", DDPList: "Buchstaben Liste", DDPElem: "Buchstabe", DDPRef: "Buchstaben Referenz", Size: 4, Bits: 32, RetArt: "einen Buchstaben", ListRet: "eine Buchstaben Liste", ListRefT: "Buchstaben Listen Referenz"},
 }
 
+const typedefDecl = "Wir definieren einen Meter als eine Zahl.\n\n"
+
+const mkHeld = "Die Variable v ist x.\n\tWenn w, speichere (x als Meter) in v.\n\t"
+
 func source() string {
 	var sb strings.Builder
+	sb.WriteString(typedefDecl)
+	// a Variable that holds a Meter (w) or a Zahl (not w), converted to the definition / to its base
+	sb.WriteString(ddp.Func("c06_cast_def", []ddp.Param{{"x", "Zahl"}, {"w", "Wahrheitswert"}}, "eine Zahl", mkHeld+"Gib (v als Meter) als Zahl zurück."))
+	sb.WriteString(ddp.Func("c06_cast_base", []ddp.Param{{"x", "Zahl"}, {"w", "Wahrheitswert"}}, "eine Zahl", mkHeld+"Gib v als Zahl zurück."))
 	for _, e := range elems {
 		sb.WriteString(ddp.Func("c06_idx_"+e.Key, []ddp.Param{{"l", e.DDPList}, {"i", "Zahl"}}, e.RetArt, "Gib l an der Stelle i zurück."))
 		sb.WriteString(ddp.Func("c06_asg_"+e.Key, []ddp.Param{{"l", e.ListRefT}, {"i", "Zahl"}, {"v", e.DDPElem}}, "nichts", "Speichere v in l an der Stelle i."))
@@ -161,6 +169,7 @@ func Run(r *core.Report, env *build.Env) {
 			t := t
 			cells = append(cells, func() { x.cellCast(t) })
 		}
+		cells = append(cells, func() { x.cellCastDef("def", true) }, func() { x.cellCastDef("base", false) })
 		cells = append(cells, x.textCells()...)
 		llh.RunParallel(llh.Wrap(r, cells), 16)
 	}
@@ -537,4 +546,59 @@ func (x *ctx) cellCast(t castT) {
 		x.r.EngineFailf("%s: vacuity guard: error path seen=%v normal path seen=%v", h.Cell, sawErr, sawOK)
 	}
 	x.finish(h, res, nil)
+}
+
+// cellCastDef: a Variable holding a value of a type definition (w) or of its base type (not w)
+// is converted to the definition (toDef) or to the base type: only the held type converts.
+func (x *ctx) cellCastDef(key string, toDef bool) {
+	h := x.newH("cast_typedef_" + key)
+	defer h.Close()
+	c := h.C
+	v := h.Var("x", 64)
+	w := h.Var("w", 1)
+	res := h.Run("c06_cast_"+key, []llse.Val{{E: v}, {E: w}})
+	holds := c.Eq(w, c.BV(1, 1))
+	if !toDef {
+		holds = c.Not(holds)
+	}
+	sawErr, sawOK := false, false
+	for _, s := range res {
+		h.On(s)
+		switch {
+		case s.Term == llse.TermRuntimeError:
+			sawErr = true
+			if !isErr1(c, s) {
+				h.Fail("exit-status-1")
+			}
+			h.Holds("cast-error-only-on-type-mismatch", s.PC, c.Not(holds))
+		case s.Term == llse.TermReturn:
+			sawOK = true
+			h.Holds("cast-succeeds-only-on-held-type", s.PC, holds)
+			h.Holds("cast-value", s.PC, c.Eq(s.Ret.E, v))
+		}
+	}
+	if !sawErr && !sawOK {
+		x.r.EngineFailf("%s: vacuity guard: no terminal path", h.Cell)
+	}
+	x.finish(h, res, func(f *llh.Failure) (string, bool) {
+		m := h.Refine(f, nil, nil)
+		if m == nil {
+			return "no model", false
+		}
+		xv, _ := llh.ValOf(m, v)
+		wv, _ := llh.ValOf(m, w)
+		nc := &llh.NativeCall{Fn: "c06_cast_" + key, DDPSrc: x.src, Opt: x.opt, RetC: "ddpint", InitAll: true,
+			Args: []llh.CArg{{Kind: "int", CType: "ddpint", Bits: xv}, {Kind: "int", CType: "ddpbool", Bits: wv}}}
+		nr := llh.RunNative(x.env, nc)
+		expectOK := (wv == 1) == toDef
+		txt := fmt.Sprintf("model: %s\nexpected: %s\nnative: exit=%d err=%q\nstdout:\n%s\nstderr:\n%s\n--- driver.c ---\n%s", h.ModelString(m),
+			map[bool]string{true: fmt.Sprintf("RET %x", xv), false: "Laufzeitfehler (Falsche Typumwandlung), exit 1"}[expectOK], nr.Exit, nr.Err, nr.Stdout, nr.Stderr, nr.Driver)
+		if nr.Err != "" {
+			return txt, false
+		}
+		if expectOK {
+			return txt, nr.Exit != 0 || !strings.Contains(nr.Stdout, fmt.Sprintf("RET %x\n", xv))
+		}
+		return txt, !nr.RuntimeError()
+	})
 }
